@@ -304,25 +304,39 @@ pub fn pool_case_run(ctx: &Ctx, c: &PoolCase, counting: bool) -> PResult {
 				let Some((r, _)) = cbs.iter().find(|(_, h)| *h + maturity <= hh + 1).cloned() else { continue };
 				let lock = (hh + *a as u64).saturating_sub(1);
 				let ok = lock <= hh + 1;
+				// every second probe carries a second height-locked kernel that is long past its lock height
+				// (the transaction's lock height is the MAXIMUM over its kernels, whatever their order)
+				let two = *b % 2 == 1;
+				let mut kernels = vec![KernelSpec {
+					kind: KKind::HeightLocked,
+					fee,
+					shift: 0,
+					lock,
+					excess_tag: 0,
+				}];
+				if two {
+					kernels.push(KernelSpec {
+						kind: KKind::HeightLocked,
+						fee,
+						shift: 0,
+						lock: hh.saturating_sub(2 + *b as u64),
+						excess_tag: 0,
+					});
+				}
+				let total_fee = fee * kernels.len() as u64;
 				(
 					TxSpec {
 						inputs: vec![r],
 						outputs: vec![OutRef {
-							amount: r.amount - fee,
+							amount: r.amount - total_fee,
 							key: 24 + *b as u32,
 							cb: false,
 						}],
-						kernels: vec![KernelSpec {
-							kind: KKind::HeightLocked,
-							fee,
-							shift: 0,
-							lock,
-							excess_tag: 0,
-						}],
+						kernels,
 						zero_offset: false,
 					},
 					ok,
-					format!("lock:T{:+}", (hh + 1) as i64 - lock as i64),
+					format!("lock{}:T{:+}", if two { "+second-kernel-long-unlocked" } else { "" }, (hh + 1) as i64 - lock as i64),
 				)
 			}
 			_ => {
